@@ -1,6 +1,6 @@
 (* C18 — dense vectors and dense matrices: round trip for every view (slice / transpose
-   composition: the writer repacks to a fresh row-major layout), reader safety (d37b260) on every
-   document whose Rows*Cols does not overflow, and the refutation for the overflowing ones. *)
+   composition: the writer repacks to a fresh row-major layout), reader safety (d37b260, 6dfd87a) on
+   every document. *)
 From Coq Require Import ZArith List Bool Lia.
 From ADV Require Import C18.Model C18.Spec C18.ProofsBase.
 Import ListNotations.
@@ -159,7 +159,7 @@ Proof.
   { apply mapR_Forall2 in Hd. apply Forall2_length' in Hd. unfold zlen in *. lia. }
   unfold read_dm; simpl. rewrite Hr; simpl.
   rewrite wrap64_small by nia. rewrite Hlend, Z.eqb_refl.
-  replace ((dm_rows m <? 0) || (dm_cols m <? 0)) with false by lia. simpl.
+  rewrite dims_good by lia. simpl.
   eexists; split; [reflexivity|].
   assert (zlen vals' = dm_rows m * dm_cols m) as Hlen'.
   { apply Forall2_length' in HF. unfold zlen in *. lia. }
@@ -188,29 +188,22 @@ Proof.
   destruct (dm_at_wf m _ _ Hwf H0 H) as (e & He & _). eauto.
 Qed.
 
-(* ---------------------------------------------------------------- the reader's validation (d37b260) *)
-(* what every accepted document guarantees, and exactly when the result is well-formed: when Rows*Cols
-   did not wrap around *)
+(* ---------------------------------------------------------------- the reader's validation (d37b260, 6dfd87a) *)
+(* reader safety at full strength: every accepted document gives a well-formed matrix of the stated dimensions *)
 Lemma read_dm_safe d m b :
   read_dm E D rd b d = Ok m ->
-  dm_rows m = dmd_rows d /\ dm_cols m = dmd_cols d /\ 0 <= dm_rows m /\ 0 <= dm_cols m /\
-  zlen (dm_vals m) = zlen (dmd_values d) /\ zlen (dm_vals m) = wrap64 (dmd_rows d * dmd_cols d) /\
-  (wf_dm m <-> dmd_rows d * dmd_cols d < 2^63).
+  wf_dm m /\ dm_rows m = dmd_rows d /\ dm_cols m = dmd_cols d /\ zlen (dm_vals m) = zlen (dmd_values d).
 Proof.
   unfold read_dm. intros H. apply bind_ok in H as (vals & Hv & H).
-  destruct ((dmd_rows d <? 0) || (dmd_cols d <? 0) || negb (zlen (dmd_values d) =? wrap64 (dmd_rows d * dmd_cols d))) eqn:Ec;
+  destruct (dims_bad (dmd_rows d) (dmd_cols d) || negb (zlen (dmd_values d) =? wrap64 (dmd_rows d * dmd_cols d))) eqn:Ec;
     [discriminate|].
   inversion H; subst; simpl; clear H.
-  apply orb_false_elim in Ec as [Ec El]. apply orb_false_elim in Ec as [Er Ecc].
-  apply negb_false_iff in El. apply Z.eqb_eq in El.
+  apply orb_false_elim in Ec as [Ed El]. apply dims_ok in Ed as (Hr & Hc & Hw).
+  apply negb_false_iff in El. apply Z.eqb_eq in El. rewrite Hw in El.
   apply mapR_Forall2 in Hv. apply Forall2_length' in Hv.
   assert (zlen vals = zlen (dmd_values d)) as Hl by (unfold zlen; lia).
-  split; [reflexivity|]. split; [reflexivity|]. split; [lia|]. split; [lia|]. split; [assumption|].
-  split; [congruence|].
-  pose proof (wrap64_range (dmd_rows d * dmd_cols d)) as Hw.
-  unfold wf_dm; simpl. rewrite Hl, El. split.
-  - intros (_ & _ & _ & _ & _ & _ & H). lia.
-  - intros Hb. rewrite wrap64_small by nia. repeat split; lia.
+  split; [|repeat split; assumption].
+  unfold wf_dm; simpl. rewrite Hl, El. repeat split; lia.
 Qed.
 
 (* no panic: the element reader is the only thing that runs before the checks *)
@@ -237,18 +230,11 @@ End Dense.
 (* ---------------------------------------------------------------- integer instance *)
 Definition Zrdm := read_dm Z Z (read_plain Z Z Zparse) false.
 
-(* STILL A DEFECT at HEAD (F-JSON-DENSE-OVERFLOW): the check len(Values) != Rows*Cols is made on a wrapping
-   product, 2^32 * 2^32 = 0 = len([]) *)
-Lemma dense_reader_overflow_refuted' :
-  exists d m, Zrdm d = Ok m /\ ~ wf_dm m /\ dm_rows m = 2^32 /\ dm_at Z m 0 0 = Panic.
-Proof.
-  exists (mkDmDoc [] (2^32) (2^32)). eexists. split; [vm_compute; reflexivity|]. split; [|split; reflexivity].
-  intros (_ & _ & _ & _ & _ & _ & H). vm_compute in H. discriminate.
-Qed.
-
-(* witnesses of the retired F-JSON-DENSE: errors now, for plain and Real matrices *)
+(* witnesses of the retired F-JSON-DENSE and of F-JSON-DENSE-OVERFLOW (found in round 3 in the first fix, repaired
+   by 6dfd87a: 2^32 * 2^32 wraps to 0 = len([]); 3 * 0x5555555555555556 = 2^64 + 2): errors now *)
 Lemma dense_reader_regression :
   Zrdm (mkDmDoc [] 1 1) = Err /\ Zrdm (mkDmDoc [1; 2; 3] 2 2) = Err /\ Zrdm (mkDmDoc [] (-1) 0) = Err /\
+  Zrdm (mkDmDoc [] (2^32) (2^32)) = Err /\ Zrdm (mkDmDoc [1; 2] 6148914691236517206 3) = Err /\
   read_dm Z Z (read_plain Z Z Zparse) true (mkDmDoc [] (-1) 0) = Err /\
   read_dm Z Z (read_plain Z Z Zparse) true (mkDmDoc [] 0 (-1)) = Err /\
   Zrdm (mkDmDoc [1; 2] 1 2) = Ok (mkDm [1; 2] 1 2 0 1 0 2 false).
